@@ -1,0 +1,69 @@
+//go:build verif
+
+package zap
+
+// Exported wrapper used only by the /verif harness (build tag `verif`).
+// This file adds no behaviour to the package.
+
+import (
+	"bytes"
+
+	"github.com/blevesearch/vellum"
+)
+
+// VerifKV is one entry of a sorted key/value list.
+type VerifKV struct {
+	K []byte
+	V uint64
+}
+
+// VerifTuple is one (key, iterator index, value) result of the enumerator.
+type VerifTuple struct {
+	K []byte
+	I int
+	V uint64
+}
+
+// VerifEnumerate builds one in-memory FST per non-empty list (keys strictly
+// ascending), opens iterators over them the way the section merges do and
+// returns everything the merge enumerator yields.
+func VerifEnumerate(lists [][]VerifKV) ([]VerifTuple, error) {
+	var itrs []vellum.Iterator
+	for _, l := range lists {
+		var buf bytes.Buffer
+		b, err := vellum.New(&buf, nil)
+		if err != nil {
+			return nil, err
+		}
+		for _, e := range l {
+			if err = b.Insert(e.K, e.V); err != nil {
+				return nil, err
+			}
+		}
+		if err = b.Close(); err != nil {
+			return nil, err
+		}
+		fst, err := vellum.Load(buf.Bytes())
+		if err != nil {
+			return nil, err
+		}
+		itr, err := fst.Iterator(nil, nil)
+		if err != nil && err != vellum.ErrIteratorDone {
+			return nil, err
+		}
+		if itr != nil {
+			itrs = append(itrs, itr)
+		}
+	}
+	var out []VerifTuple
+	e, err := newEnumerator(itrs)
+	for err == nil {
+		k, i, v := e.Current()
+		out = append(out, VerifTuple{K: append([]byte(nil), k...), I: i, V: v})
+		err = e.Next()
+	}
+	if err != vellum.ErrIteratorDone {
+		return nil, err
+	}
+	return out, e.Close()
+}
